@@ -36,6 +36,17 @@ theorem C14_reachable_wf (parse : Bytes → Option Uuid) (ops : List Op) (mac : 
     ⟨by simp [PState.empty, akeys], by simp [PState.empty, akeys], by simp [PState.empty, akeys]⟩
   exact ⟨n1, n2, n3, h1, h2⟩
 
+/-- Saving after every operation: at EVERY point of every pairing history (every prefix — the
+    history is universally quantified), the document `persist` produces from the state of that
+    moment loads back to exactly that state. So a file rewritten at each completed save always
+    restarts into the current identity, pairings, permissions and identifier bytes — including when
+    the last operation changed nothing but a permission byte or the recorded spelling. -/
+theorem C14_history_roundtrip (parse : Bytes → Option Uuid) (ops : List Op) (mac : String) (cv : Int)
+    (ah : Option String) (priv pub : Bytes) (h1 : priv.length = 32) (h2 : pub.length = 32) :
+    load (persist ⟨mac, cv, ah, priv, pub, run parse PState.empty ops⟩)
+      = some ⟨mac, cv, ah, priv, pub, run parse PState.empty ops⟩ :=
+  C14_roundtrip _ (C14_reachable_wf parse ops mac cv ah priv pub h1 h2)
+
 /-- Files written before permissions were stored (no `client_properties` member): whenever such a
     document loads, every controller of `paired_clients` has a permission entry, each entry is 1,
     and therefore every paired controller is admin. -/
